@@ -7,7 +7,7 @@ TAGS = ['awaited', 'stuck', 'alg', 'setflag']
 RULE = ('(a) scope trees: nested (until-)scopes (depth <= 3, <= 3 children each, volatile or delayed), bodies and children that '
         'sleep/raise (regular and privileged types)/return, cancels from inside and from a separate activity after t time units '
         'and k postponements, deadlines and flags on a coarse time grid, everything wrapped in handlers that log what they catch; '
-        '(b) random valid whole-API programs (no usage errors); (c) condition expression trees (depth <= 3) over flags / tracked values / task completion / time atoms awaited by 1-4 waiters while other activities change the values (also reverting within a step), plus `bool()` probes of derived conditions; non-trivial = a connective or inverted condition was awaited or probed')
+        '(b) random valid whole-API programs (no usage errors); (c) condition expression trees (depth <= 3) over flags / tracked values / task completion / time atoms awaited by 1-4 waiters while other activities change the values (also reverting within a step), flat connectives whose operands flicker over several time steps before all of them hold, plus `bool()` probes of derived conditions; non-trivial = a connective or inverted condition was awaited or probed')
 
 
 import gen
@@ -75,6 +75,41 @@ def revert_family(rng):
     return ['scenario', ['debug', 1], ['start', 0], ['flags', 2], ['locks', 0], ['tracked', 3, 5], ['roots'] + roots]
 
 
+def flicker_family(rng):
+    """flat connectives over flags whose operands go back and forth several times, each change in a time step of its own:
+    operands that hold when the wait starts and revert later, operands that become true one after the other, and a
+    last step that makes every operand true (so a waiter that was lost is seen waiting although its condition holds)"""
+    n = 3
+    init = [rng.random() < 0.5 for _ in range(n)]
+    lits = []
+    for i in range(n):
+        lits.append(['flag', i] if rng.random() < 0.75 else ['inv', ['flag', i]])
+
+    def cond():
+        k = rng.randint(2, 3)
+        ops = rng.sample(lits, k)
+        form = rng.random()
+        if form < 0.6:
+            return ['all'] + ops
+        if form < 0.8:
+            # De Morgan: ~(~a | ~b)
+            return ['inv', ['any'] + [['inv', o] for o in ops]]
+        return ['any'] + ops
+    roots = [['prog'] + [['set', i, True] for i in range(n) if init[i]]]
+    for i in range(rng.randint(1, 3)):
+        roots.append(['prog', ['sleep', rng.choice([F(1, 2), F(1, 2), F(3, 2), F(5, 2)])], ['await', cond()], ['log', 100 + i]])
+    walk = [['sleep', 1]]
+    for _ in range(rng.randint(4, 9)):
+        walk.append(['set', rng.randrange(n), rng.random() < 0.5])
+        walk.append(['sleep', rng.choice([1, 1, 0])])
+    # finally every literal holds
+    for i in range(n):
+        walk.append(['set', i, lits[i][0] == 'flag'])
+        walk.append(['sleep', rng.choice([1, 0])])
+    roots.append(['prog'] + walk)
+    return ['scenario', ['debug', 1], ['start', 0], ['flags', n], ['locks', 0], ['roots'] + roots]
+
+
 #: known finding F8: a connective nested in a connective loses wake-ups
 F8_PROBE = ['scenario', ['debug', 1], ['start', 0], ['flags', 3], ['locks', 0],
             ['roots', ['prog', ['await', ['all', ['any', ['flag', 0], ['flag', 1]], ['flag', 2]]], ['log', 1]],
@@ -88,7 +123,7 @@ def nontrivial(impl):
     return sum(1 for e in impl['events'] if ':awaited:' in e or ':alg:' in e) >= 2
 
 
-SOURCES = [scopesuite.scope_tree, scopesuite.valid_scenario, cond_family, revert_family]
+SOURCES = [scopesuite.scope_tree, scopesuite.valid_scenario, cond_family, revert_family, flicker_family]
 
 
 def run(tier, seed, drv):
